@@ -110,9 +110,18 @@ def _gen_collection(rnd, reparse_safe, with_seq, chunk):
             k = rnd.choice(["note", "Note2", "db xref", "k;ey", "função", "e=q", "Straße", "µmol_per_l", "ΟΔΟΣ", "ǅ"]) \
                 if not reparse_safe else rnd.choice(["note", "note2", "db_xref", "funcao", "straße", "µmol_per_l", "οδος"])
             q[k] = [T() for _ in range(rnd.randrange(1, 3))]
+        # (only in the leg that is not re-parsed: the library writes such a pair as two tags of one row, a re-export as one)
+        if q and not reparse_safe and rnd.random() < 0.15:
+            # two keys of one object that are EQUAL after the documented lower-casing: one tag with the union of the values
+            k0 = rnd.choice(sorted(q))
+            twin_key = k0.upper() if k0.upper() != k0 else k0.lower()
+            if twin_key != k0 and twin_key not in q:
+                q[twin_key] = [T() for _ in range(rnd.randrange(1, 3))]
         if share and rnd.random() < 0.6:
             # a child that has a qualifier key of its parent's with values of its own
-            q[rnd.choice(sorted(share))] = [T() for _ in range(rnd.randrange(1, 3))]
+            ks = rnd.choice(sorted(share))
+            # (sometimes in another case than the parent spells it; never the capitalised GFF3-reserved spellings like Note)
+            q[ks.upper() if (not reparse_safe and rnd.random() < 0.3 and ks.upper() not in q) else ks] = [T() for _ in range(rnd.randrange(1, 3))]
         return q
 
     model, genes, fcs = [], [], []
@@ -247,7 +256,9 @@ def _events(args):
                 want_attrs[str(t.guid)] = _lower_expected(merged_q)
         src_before = _proj_quals(coll)
         try:
-            collection_to_gff3([coll], buf, add_sequences=add_seq, chromosome_relative_coordinates=not chunk_mode)
+            # the collections are an Iterable: a list, or something that can be walked only once
+            colls = [coll] if rnd.random() < 0.6 else (c for c in [coll])
+            collection_to_gff3(colls, buf, add_sequences=add_seq, chromosome_relative_coordinates=not chunk_mode)
         except Exception as ex:
             ev.append(["gff", 0, model, [[0, type(ex).__name__, "", "", 0, 0, "", "", "", [], False]], False])
             continue
